@@ -42,7 +42,7 @@ ValClass(t) == IF t.k = "iv" THEN (IF t.lo >= 0 THEN C("Nat") ELSE C("Int"))
                     ELSE IF \E i \in 1..Len(t.vs) : t.vs[i] = "-1" THEN C("Int") ELSE C("Nat")
 
 \* operands of depth-1 constructors
-A1 == IF Level = 1 THEN {C("Nat"), C("Int"), C("Str"), C("Bool"), C("NoneType"), En(<<"1", "2">>), En(<<"\"a\"">>), Iv(1, 3), C("Eq")}
+A1 == IF Level = 1 THEN {C("Nat"), C("Int"), C("Float"), C("Str"), C("Bool"), C("NoneType"), En(<<"1", "2">>), En(<<"\"a\"">>), Iv(1, 3), C("Eq")}
       ELSE {C("Nat"), C("Int"), C("Float"), C("Str"), C("Bool"), C("NoneType"), C("Never"), C("Obj"), En(<<"1", "2">>), En(<<"-1", "2">>),
             En(<<"\"a\"">>), Iv(1, 3), Iv(-2, 2), C("Eq"), C("Ord")}
 A2 == IF Level = 1 THEN {C("Nat"), C("Int"), C("Str"), En(<<"1", "2">>)} ELSE {C("Nat"), C("Int"), C("Float"), C("Str"), En(<<"1", "2">>), Iv(1, 3), C("Obj"), C("Never")}
